@@ -1,5 +1,6 @@
 import Proofs.Render.Schedule
 import Proofs.Render.Compose
+import Proofs.Render.NoLeak
 /-!
 # C09 — every request gets exactly one final response reflecting the handler outcome
 
@@ -207,6 +208,14 @@ theorem C09_bare_500 (s : Site) (req : Request) (r : Resource) (o : Outcome)
   simp only [expectedFinal, hpath, hc, ↓reduceIte, hmeth]
   rcases hfail with ⟨t, rfl⟩ | ⟨t, rfl⟩ | ⟨b, t, rfl⟩ | rfl <;> rfl
 
+/-- **C09 (no exception text leaks — non-interference).**  Replace every exception text, every
+wrongly returned value and every failing renderer's text in the site by the empty text: the
+outputs of every schedule — every message handed to the message layer with its payload, every
+log record kind, every clean-up — stay exactly the same.  Nothing observable depends on them. -/
+theorem C09_no_text_leak (site : Option Site) (ins : List In) :
+    (run (Sys.init (site.map Site.eraseText)) ins).2 = (run (Sys.init site) ins).2 :=
+  run_Sim ins (init_good site) (init_Sim site)
+
 /-- **C09 (unknown path → 4.04).** -/
 theorem C09_unknown_path_404 (s : Site) (req : Request)
     (hpath : s.resources.lookup req.path = none)
@@ -316,6 +325,15 @@ theorem C09_two_states (site : Option Site) (ins : List In) (i : Nat) (e : Entry
     (h : (run (Sys.init site) ins).1.entries i = some e) :
     (e.st = .start ∧ e.finished = false) ∨ e.st = .done :=
   ((run_good (init_good site) ins) i e h).1
+
+/-- **C09_one_final** (the name used in DESIGN.md §6): at most one final response in every
+schedule, and exactly the tabled one with the request's token once the handler has completed. -/
+theorem C09_one_final (site : Option Site) (i : Nat) (req : Request) (pre mid post : List In)
+    (hpre : ∀ a ∈ pre, a.id ≠ i) (hmid : ∀ a ∈ mid, a ≠ .complete i ∧ a ≠ .stop i) :
+    (∀ ins j, (finalsOf j (run (Sys.init site) ins).2).length ≤ 1) ∧
+    finalsOf i (run (Sys.init site) (pre ++ .deliver i req :: (mid ++ .complete i :: post))).2 =
+      (expectedFinal site req).toList.map (fun m => (req.token, m)) :=
+  ⟨fun ins j => C09_at_most_one site ins j, C09_exactly_one_as_tabled site i req pre mid post hpre hmid⟩
 
 -- composition with the message layer ---------------------------------------------------------
 
@@ -455,6 +473,10 @@ example :
     (run (Sys.init (some exSite))
       [.deliver 0 (exReq 3 ["a"] 7), .stop 0, .complete 0]).2.map (·.eff) =
       [.unregister, .cancelTask, .log .discarded] := by decide
+
+/-- erasing the texts changes the site (the statement of `C09_no_text_leak` is not vacuous) -/
+example : (exSite.eraseText.resources.lookup ["a"]).bind (·.lookup 3) = some (.raisesOther []) ∧
+    (exSite.resources.lookup ["a"]).bind (·.lookup 3) = some (.raisesOther [115, 101, 99]) := by decide
 
 example : expectedFinal (some exSite) (exReq 2 ["a"] 1) = some ⟨128, [100], none⟩ := by decide
 example : expectedFinal (some exSite) (exReq 5 ["a"] 1) =
